@@ -4,6 +4,7 @@ import (
 	"bufio"
 	"encoding/base64"
 	"encoding/binary"
+	"encoding/hex"
 	"encoding/json"
 	"fmt"
 	"io"
@@ -11,6 +12,7 @@ import (
 	"regexp"
 	"runtime"
 	"runtime/metrics"
+	"runtime/pprof"
 	"strconv"
 	"strings"
 	"sync/atomic"
@@ -299,7 +301,7 @@ func Child(args []string) int {
 		runtime.MemProfileRate = 1
 	}
 	if !raceEnabled {
-		lim := uint64(8 << 30)
+		lim := uint64(2 << 30)
 		if s := os.Getenv("VERIF_C14_AS_LIMIT_MB"); s != "" {
 			if v, err := strconv.ParseUint(s, 10, 64); err == nil {
 				lim = v << 20
@@ -307,7 +309,16 @@ func Child(args []string) int {
 		}
 		syscall.Setrlimit(syscall.RLIMIT_AS, &syscall.Rlimit{Cur: lim, Max: lim})
 	}
-	ins, err := readBatch(args[1])
+	var ins []input
+	var err error
+	if strings.HasPrefix(args[1], "hex:") {
+		// development aid: mon C14 child <target> hex:<input> /dev/stdout 0
+		var b []byte
+		b, err = hex.DecodeString(args[1][4:])
+		ins = []input{{class: "manual", data: b}}
+	} else {
+		ins, err = readBatch(args[1])
+	}
 	if err != nil {
 		fmt.Fprintf(os.Stderr, "batch: %v\n", err)
 		return 2
@@ -346,6 +357,12 @@ func Child(args []string) int {
 			}
 		}
 	}()
+	if pf := os.Getenv("VERIF_C14_PPROF"); pf != "" {
+		if f, err := os.Create(pf); err == nil {
+			pprof.StartCPUProfile(f)
+			defer pprof.StopCPUProfile()
+		}
+	}
 	line := make([]byte, 0, 256)
 	for i := from; i < len(ins); i++ {
 		line = append(line[:0], 'S', ' ')
